@@ -60,6 +60,8 @@ def run_spec(ctx, rep, spec, model, only=None):
                             rep.tie(f"binary-data validation: the Lean model says {dv} for a well-formed plotfile the validator accepts", case)
     if model and only is None:
         row_edits(ctx, rep, spec, tree)
+    if only is None or only.get("after_rejection"):
+        after_rejection(ctx, rep, spec, tree, path)
     wf_idx = []
     if model and only is None and len(set(spec["fields"])) == len(spec["fields"]):
         # certificate: is this plotfile, as bytes on disk, well formed in the sense of the completeness theorem
@@ -142,6 +144,32 @@ def row_edits(ctx, rep, spec, tree):
             rep.tie(f"binary-data validation of a level header with a {kind} entry: validator says {real} (raised={raised}), the Lean model {mv}", case)
 
 
+def after_rejection(ctx, rep, spec, tree, path):
+    """a history in ONE process: a plotfile with a wrong recorded extremum is rejected under binary_data (failing mode: the
+    validator raises part-way through its work), then the well-formed plotfile is validated under several option sets"""
+    nf = len(spec["fields"])
+    rel = "Level_0/Cell_H"
+    new = edit_row(tree.get(rel, b""), nf, 1, 0, 0, "far") if rel in tree else None
+    if new is None:
+        return
+    t2 = dict(tree); t2[rel] = new
+    p2 = ctx.newdir("c03rej_")
+    tastelib.write_tree(t2, p2)
+    case = {"spec": spec, "after_rejection": True}
+    rep.case({"s": spec, "after_rejection": True}, nontrivial=True); rep.count("history:rejection-then-well-formed")
+    g, r = tastelib.real_taste(p2, nofail=False, binary_data=True)
+    if g or r is None:
+        return          # not rejected: nothing to come after (the verdict itself is compared in row_edits)
+    for opts in (OPTS[3], OPTS[1], OPTS[0]):
+        for nofail in (False, True):
+            good, raised = tastelib.real_taste(path, nofail=nofail, **opts)
+            if raised is not None or not good:
+                rep.fail(f"after another plotfile was rejected in the same process, a well-formed plotfile is reported bad "
+                         f"(good={good}, raised={raised}, options {opts}, nofail={nofail})", case, obs={"good": good, "raised": raised})
+                return
+    rep.agree()
+
+
 def directories_session(ctx, rep, seed):
     from amr_kitchen.taste.taste import Taster
     from .. import sessions
@@ -182,4 +210,8 @@ def replay(ctx, rep, obj, model=True):
     c = obj["case"]
     if "directories_session" in c:
         directories_session(ctx, rep, c["directories_session"]); return
+    if c.get("after_rejection"):
+        path = ctx.newdir("c03_")
+        plotgen.materialize(c["spec"], path)
+        after_rejection(ctx, rep, c["spec"], tastelib.snapshot(path), path); return
     run_spec(ctx, rep, c["spec"], model, only=c["mode"])
